@@ -27,24 +27,42 @@ HasLag(s, i, n) == i - n >= 1 /\ i - n <= Len(s)
 
 DefShift(s, n, fill) == [i \in 1..Len(s) |-> IF HasLag(s, i, n) THEN s[i - n] ELSE fill]
 
+\* Float series may hold +-infinity: not a null, but arithmetic on it follows IEEE 754 -
+\* inf - inf and inf / inf have no value (NaN, the null of a float series).  PINFM / NINFM are the
+\* two infinities as in-band symbols; XSub / XPct are subtraction and relative change extended to them.
+PINFM == 900000
+NINFM == 0 - 900000
+IsInfM(x) == x = PINFM \/ x = NINFM
+XSub(a, b) ==
+    IF a = PINFM THEN (IF b = PINFM THEN NULL ELSE PINFM)
+    ELSE IF a = NINFM THEN (IF b = NINFM THEN NULL ELSE NINFM)
+    ELSE IF b = PINFM THEN NINFM ELSE IF b = NINFM THEN PINFM ELSE a - b
+EInf(sg) == <<10, sg>>                       \* expectation: sg * infinity
+\* a / b - 1 for a non-null pair
+XPct(a, b) ==
+    IF b = 0 THEN ENull                                                   \* zero base: null by the property
+    ELSE IF IsInfM(b) THEN (IF IsInfM(a) THEN ENull ELSE EQ(<<0 - 1, 1>>))  \* finite / inf = 0
+    ELSE IF a = PINFM THEN EInf(Sgn(b)) ELSE IF a = NINFM THEN EInf(0 - Sgn(b))
+    ELSE EQ(QN(a - b, b))
+
 \* x[i] - x[i-n] where both operands exist and are non-null; the fill value where the lagged
 \* operand does not exist; null where an existing operand is null
 DefDiff(s, n, fill) ==
     [i \in 1..Len(s) |->
         IF ~HasLag(s, i, n) THEN fill
         ELSE IF s[i] = NULL \/ s[i - n] = NULL THEN NULL
-        ELSE s[i] - s[i - n]]
+        ELSE XSub(s[i], s[i - n])]
 
 \* x[i]/x[i-n] - 1 as an expectation; null on a missing / null operand or a zero base
 DefPct(s, n) ==
     [i \in 1..Len(s) |->
-        IF ~HasLag(s, i, n) \/ s[i] = NULL \/ s[i - n] = NULL \/ s[i - n] = 0 THEN ENull
-        ELSE EQ(QN(s[i] - s[i - n], s[i - n]))]
+        IF ~HasLag(s, i, n) \/ s[i] = NULL \/ s[i - n] = NULL THEN ENull
+        ELSE XPct(s[i], s[i - n])]
 
 \* ---- units of measurement (see Laws1.tla): shifting and differencing are homogeneous of degree 1
 \* in the unit the series AND the fill value are measured in, the percentage change of degree 0
-InUnitM(s, u) == [i \in 1..Len(s) |-> IF s[i] = NULL THEN NULL ELSE u * s[i]]
-UnitOf(x, u) == IF x = NULL THEN NULL ELSE u * x
+UnitOf(x, u) == IF x = NULL \/ IsInfM(x) THEN x ELSE u * x
+InUnitM(s, u) == [i \in 1..Len(s) |-> UnitOf(s[i], u)]
 LagDeg == [shift |-> 1, diff |-> 1, pct |-> 0]
 LagHomogeneous(s, n, fill) ==
     \A u \in {2, 3} :
